@@ -44,7 +44,7 @@ Lemma sk_Process_init_ok : sk_Process_init = expected_sk_Process_init. Proof. re
 Definition expected_sk_Process_Solve : list string := ["startTime = datetime.now()"; "try:"; "  while not self.method.CheckStopCondition():"; "    self.DoGlobalIteration()"; "except BaseException:"; "  print('Exception was thrown')"; "if self.parameters.refineSolution:"; "  self.DoLocalRefinement(-1)"; "result = self.GetResults()"; "result.solvingTime = (datetime.now() - startTime).total_seconds()"; "for listener in self.__listeners:"; "  status = self.method.CheckStopCondition()"; "  listener.OnMethodStop(self.searchData, self.GetResults(), status)"; "return result"].
 Lemma sk_Process_Solve_ok : sk_Process_Solve = expected_sk_Process_Solve. Proof. reflexivity. Qed.
 
-Definition expected_sk_Process_DoGlobalIteration : list string := ["savedNewPoints = []"; "for _ in range(number):"; "  if self.__first_iteration is True:"; "    for listener in self.__listeners:"; "      listener.BeforeMethodStart(self.method)"; "    self.method.FirstIteration()"; "    savedNewPoints.append(self.searchData.GetLastItem())"; "    self.__first_iteration = False"; "  else:"; "    newpoint, oldpoint = self.method.CalculateIterationPoint()"; "    savedNewPoints.append(newpoint)"; "    try:"; "      self.method.CalculateFunctionals(newpoint)"; "    except BaseException:"; "      self.method.recalc = True"; "      raise"; "    self.method.UpdateOptimum(newpoint)"; "    self.method.RenewSearchData(newpoint, oldpoint)"; "    self.method.FinalizeIteration()"; "for listener in self.__listeners:"; "  listener.OnEndIteration(savedNewPoints, self.GetResults())"].
+Definition expected_sk_Process_DoGlobalIteration : list string := ["savedNewPoints = []"; "for _ in range(number):"; "  if self.__first_iteration is True:"; "    for listener in self.__listeners:"; "      listener.BeforeMethodStart(self.method)"; "    self.method.FirstIteration()"; "    savedNewPoints.append(self.searchData.GetLastItem())"; "    self.__first_iteration = False"; "  else:"; "    accuracy = self.method.min_delta"; "    newpoint, oldpoint = self.method.CalculateIterationPoint()"; "    savedNewPoints.append(newpoint)"; "    try:"; "      self.method.CalculateFunctionals(newpoint)"; "    except BaseException:"; "      self.method.recalc = True"; "      self.method.min_delta = accuracy"; "      raise"; "    self.method.UpdateOptimum(newpoint)"; "    self.method.RenewSearchData(newpoint, oldpoint)"; "    self.method.FinalizeIteration()"; "for listener in self.__listeners:"; "  listener.OnEndIteration(savedNewPoints, self.GetResults())"].
 Lemma sk_Process_DoGlobalIteration_ok : sk_Process_DoGlobalIteration = expected_sk_Process_DoGlobalIteration. Proof. reflexivity. Qed.
 
 Definition expected_sk_Process_GetResults : list string := ["return self.searchData.solution"].
